@@ -43,6 +43,9 @@ def run_harness(ctx, tools, tag, args, timeout=3000):
         return [], [], "harness %s failed (rc %d):\n%s" % (tag, rc, out[-3000:])
     t = open(prefix + ".cases").read().splitlines()
     j = [json.loads(l) for l in open(prefix + ".jsonl").read().splitlines()]
+    for x in j:
+        x["spec"]["includes"] = x["spec"].get("includes") or []
+        x["spec"]["tree"] = x["spec"].get("tree") or []
     if len(t) != len(j):
         return [], [], "harness %s wrote %d terms but %d json cases" % (tag, len(t), len(j))
     return t, j, None
